@@ -36,3 +36,17 @@ Theorem s_path_closure (m : nat) (g : nat -> P) :
   (forall i j, (i < m)%nat -> (j < m)%nat -> anti (g i) (g j) = adj i j) ->
   forall p, ClS (PathT.G P m g) p <-> IsSeg P mul m g p.
 Proof. intros Hpath p. apply path_closure; laws. Qed.
+
+(* a star of single legs: centre c, pairwise commuting legs each anticommuting with c *)
+From PauLie Require Import StarClosureT.
+Lemma anti_pid_r a : anti a pid = false.
+Proof. unfold anti, pid. cbn [fst snd]. rewrite !N.land_0_r. reflexivity. Qed.
+Theorem s_star_closure (c : P) (ls : list P) :
+  (forall a b, In a ls -> In b ls -> anti a b = false) -> (forall a, In a ls -> anti c a = true) ->
+  forall p, ClS (StarClosureT.G P c ls) p <-> InStar P mul pid c ls p.
+Proof.
+  intros H1 H2 p. apply (star_closure P mul anti pid); try laws.
+  - exact mul_pid_r.
+  - exact anti_pid_r.
+  - apply anti_self.
+Qed.
